@@ -12,7 +12,8 @@ Inductive skind := KList | KTuple.
 Definition skind_eqb (a b : skind) : bool := match a, b with KList, KList | KTuple, KTuple => true | _, _ => false end.
 
 Inductive val := VAtom (z : Z) | VSeq (k : skind) (l : list val).
-Inductive tree := TLeaf (z : Z) (canon : bool) | TSeq (k : skind) (l : list tree).
+(* TUnm id z: a part the user controls (Is(...), dirty-equals value, inner snapshot(...)) with source identity `id`, currently worth z *)
+Inductive tree := TLeaf (z : Z) (canon : bool) | TUnm (id : nat) (z : Z) | TSeq (k : skind) (l : list tree).
 Inductive rtree := RKeep (t : tree) | RGen (v : val) | RSeq (k : skind) (l : list rtree).
 
 Fixpoint val_eqb (a b : val) {struct a} : bool :=
@@ -32,6 +33,7 @@ Fixpoint val_eqb (a b : val) {struct a} : bool :=
 Fixpoint eval (t : tree) : val :=
   match t with
   | TLeaf z _ => VAtom z
+  | TUnm _ z => VAtom z
   | TSeq k l => VSeq k (map eval l)
   end.
 Fixpoint eval_r (r : rtree) : val :=
@@ -44,6 +46,7 @@ Fixpoint eval_r (r : rtree) : val :=
 Fixpoint canonical (t : tree) : bool :=
   match t with
   | TLeaf _ c => c
+  | TUnm _ _ => true                     (* update never applies to it *)
   | TSeq _ l => forallb canonical l
   end.
 
@@ -52,8 +55,10 @@ Definition elt_eqb (o : tree) (n : val) : bool := val_eqb (eval o) n.
 Definition script (olds : list tree) (news : list val) : list dir := add_x (align tree val elt_eqb olds news).
 
 (* ValueAdapter.assign: a node as a whole *)
+Definition is_unm (o : tree) : bool := match o with TUnm _ _ => true | _ => false end.
 Definition value_assign (F : flags) (o : tree) (n : val) : rtree :=
-  if negb (val_eqb (eval o) n) then (if f_fix F then RGen n else RKeep o)
+  if is_unm o then RKeep o                (* `if isinstance(old_value, Unmanaged): return old_value` *)
+  else if negb (val_eqb (eval o) n) then (if f_fix F then RGen n else RKeep o)
   else if negb (canonical o) && f_update F then RGen n else RKeep o.
 
 Fixpoint assign (fuel : nat) (F : flags) (o : tree) (n : val) {struct fuel} : rtree :=
@@ -92,6 +97,7 @@ Fixpoint assign (fuel : nat) (F : flags) (o : tree) (n : val) {struct fuel} : rt
 Fixpoint depth (t : tree) : nat :=
   match t with
   | TLeaf _ _ => 0%nat
+  | TUnm _ _ => 0%nat
   | TSeq _ l => S (fold_right (fun x a => Nat.max (depth x) a) 0%nat l)
   end.
 (* enough fuel for every tree *)
